@@ -653,7 +653,6 @@ var rawQuoteHelpers = map[string]string{
 	"packets.extractEmbeddedIPv6": "skips the 4-byte ICMPv6 prefix after checking the IP version nibble only",
 }
 
-
 // quoteLocal: the term mentions a local of the gopacket IP layer types – the quoted header a parser function decodes into
 // (the outer header lives in the parser object, not in a local).
 func quoteLocal(t *core.Term) bool {
